@@ -160,12 +160,29 @@ def inverse_checks(r, sub, fas, dt, x, N, feed):
     if sum(v if t % 2 == 0 else -v for t, v in enumerate(xpad)) != 0:
         r.cls('inverse-nonzero-nyquist')
     s2 = dict(sub, feed=feed)
+    # the spectrum handed to the helpers (for feed='implementation' it is the array the object / array function returned, i.e. the
+    # object's own cached spectrum) must still be dt x DFT afterwards: snapshot it around every helper call
+    snap = np.array(fas, copy=True) if isinstance(fas, np.ndarray) else None
+
+    def spectrum_unchanged(fn):
+        if snap is None:
+            return
+        r.n_cmp += 1
+        if not (isinstance(fas, np.ndarray) and fas.shape == snap.shape and np.array_equal(fas, snap)):
+            r.fail('inverse.spectrum-unchanged', dict(s2, fn=fn), '%s modified the spectrum it was given (it is no longer dt x DFT of the record)' % fn,
+                   observed=fas, expected=snap)
+            try:
+                fas[...] = snap
+            except Exception:
+                pass
     ok, v = r.call('inverse.values', dict(s2, fn='fas2values'), frequency.fas2values, fas, dt)
+    spectrum_unchanged('fas2values')
     if ok:
         check_series(r, dict(s2, fn='fas2values'), v, want, N, scale)
     for stype, cname in (('signal', 'Signal'), ('acc_signal', 'AccSignal')):
         s3 = dict(s2, fn='fas2signal', stype=stype)
         ok, sg = r.call('inverse.values', s3, frequency.fas2signal, fas, dt, stype=stype)
+        spectrum_unchanged('fas2signal')
         if not ok:
             continue
         try:
